@@ -83,6 +83,9 @@ def run(tier, seed):
     v.assumptions += ["a frame is declared missing only after the producer finished and a 3 s grace period elapsed",
                       "a subscriber that lags more than the 16 384-slot broadcast channel is out of scope",
                       "one gated subscriber per run; frames beyond the scheduled prefix flow freely"]
+    # the repository's own tests as drivers: every recorded execution against the monitor half of System.tla
+    from .. import suite
+    suite.check(v, wd)
     return v.finish(
         rule="cases = TLC-enumerated interleavings of producer record/publish steps with subscriber subscribe/snapshot steps x stream kind "
              "(session, task: private channel; thread: channel shared with a longer thread); non-trivial = both a producer step and a subscriber "
@@ -94,6 +97,9 @@ def replay(path, seed):
     with open(path) as f:
         rep = json.load(f)
     case = rep["case"]
+    if case.get("engine") == "suite":
+        from .. import suite
+        return suite.replay(PROP, path, case)
     wd = workdir(PROP + "-replay")
     res = run_harness("sub", [case["case"]], wd, "replay")[0]
     print(json.dumps({"delivered": res["delivered"], "total": res["total"], "steps": res["steps"]}))
